@@ -154,14 +154,14 @@ theorem sealInto_count (c : Cfg) (a : ATopic) (w : ABlk) : (sealInto c a w).coun
   unfold sealInto; split <;> rfl
 
 /-- `Writer::write` on an entry within the allocation limit -/
-theorem write_spec (c : Cfg) (hm : 0 < c.metaSz) (n : Nat) (a : ATopic) (k : Nat) (h : TInv c n a k) (w : ABlk)
+theorem writeCore_spec (c : Cfg) (hm : 0 < c.metaSz) (n : Nat) (a : ATopic) (k : Nat) (h : TInv c n a k) (w : ABlk)
     (hw : a.writer = some w) (long : Bool) (pay : Pay) (hlim : raw c pay ≤ c.maxAlloc) :
-    let r := write c n a w long pay
+    let r := writeCore c n a w long pay
     TInv c r.1 r.2.1 k ∧ n ≤ r.1 ∧ r.2.1.count = a.count ∧
       (r.2.2 = none → log r.2.1 = log a ++ [pay]) ∧ (r.2.2 ≠ none → log r.2.1 = log a) := by
   have hpos : ¬ (raw c pay = 0 ∨ raw c pay > c.maxAlloc) := by
     have := raw_pos c hm pay; omega
-  unfold write
+  unfold writeCore
   simp only
   by_cases hrot : w.used c + raw c pay > w.limit
   · simp only [hrot, if_true, hpos, if_false]
@@ -183,6 +183,25 @@ theorem write_spec (c : Cfg) (hm : 0 < c.metaSz) (n : Nat) (a : ATopic) (k : Nat
       simp only [Bool.false_eq_true, if_false]
       have := tinv_append_tail c n a k h w hw [pay]
       exact ⟨this.1, by simp, by simp, fun _ => this.2, fun hx => absurd rfl hx⟩
+
+/-- `Writer::write`, any entry: an entry beyond the allocation limit is rejected and nothing changes -/
+theorem write_spec' (c : Cfg) (hm : 0 < c.metaSz) (n : Nat) (a : ATopic) (k : Nat) (h : TInv c n a k) (w : ABlk)
+    (hw : a.writer = some w) (long : Bool) (pay : Pay) :
+    let r := write c n a w long pay
+    TInv c r.1 r.2.1 k ∧ n ≤ r.1 ∧ r.2.1.count = a.count ∧
+      (r.2.2 = none → log r.2.1 = log a ++ [pay]) ∧ (r.2.2 ≠ none → log r.2.1 = log a) := by
+  unfold write
+  split
+  · exact ⟨h, Nat.le_refl _, rfl, (fun hx => nomatch hx), fun _ => rfl⟩
+  · rename_i hbig
+    exact writeCore_spec c hm n a k h w hw long pay (Nat.le_of_not_gt hbig)
+
+theorem write_spec (c : Cfg) (hm : 0 < c.metaSz) (n : Nat) (a : ATopic) (k : Nat) (h : TInv c n a k) (w : ABlk)
+    (hw : a.writer = some w) (long : Bool) (pay : Pay) (_hlim : raw c pay ≤ c.maxAlloc) :
+    let r := write c n a w long pay
+    TInv c r.1 r.2.1 k ∧ n ≤ r.1 ∧ r.2.1.count = a.count ∧
+      (r.2.2 = none → log r.2.1 = log a ++ [pay]) ∧ (r.2.2 ≠ none → log r.2.1 = log a) :=
+  write_spec' c hm n a k h w hw long pay
 
 /-- the planning loop of `batch_write`, seen on the state "topic with active block `w`" -/
 theorem batchPlan_spec (c : Cfg) (hbs : c.blockSize ≤ c.maxAlloc) (hb0 : 0 < c.blockSize) :
@@ -230,14 +249,14 @@ theorem batchPlan_spec (c : Cfg) (hbs : c.blockSize ≤ c.maxAlloc) (hb0 : 0 < c
         simp
 
 /-- `Writer::batch_write` -/
-theorem batchWrite_spec (c : Cfg) (hbs : c.blockSize ≤ c.maxAlloc) (hb0 : 0 < c.blockSize) (n : Nat) (a : ATopic)
+theorem batchWriteCore_spec (c : Cfg) (hbs : c.blockSize ≤ c.maxAlloc) (hb0 : 0 < c.blockSize) (n : Nat) (a : ATopic)
     (k : Nat) (h : TInv c n a k) (w : ABlk) (hw : a.writer = some w) (long : Bool) (batch : List Pay)
     (hl : ∀ p ∈ batch, raw c p ≤ c.maxAlloc) :
-    let r := batchWrite c n a w long batch
+    let r := batchWriteCore c n a w long batch
     TInv c r.1 r.2.1 k ∧ n ≤ r.1 ∧ r.2.1.count = a.count ∧
       (r.2.2 = none → log r.2.1 = log a ++ batch) ∧ (r.2.2 ≠ none → log r.2.1 = log a) := by
   have ha : { a with writer := some w } = a := by cases a; simp_all
-  unfold batchWrite
+  unfold batchWriteCore
   simp only
   split
   · exact ⟨h, Nat.le_refl _, rfl, (fun hx => nomatch hx), fun _ => rfl⟩
@@ -257,5 +276,40 @@ theorem batchWrite_spec (c : Cfg) (hbs : c.blockSize ≤ c.maxAlloc) (hb0 : 0 < 
           subst hok
           rw [ha] at hlog
           exact ⟨hinv, hn, hc, fun _ => hlog, fun hx => absurd rfl hx⟩
+
+/-- `Writer::batch_write`, any batch: a batch with an entry beyond the allocation limit is rejected and nothing changes -/
+theorem batchWrite_spec' (c : Cfg) (hbs : c.blockSize ≤ c.maxAlloc) (hb0 : 0 < c.blockSize) (n : Nat) (a : ATopic)
+    (k : Nat) (h : TInv c n a k) (w : ABlk) (hw : a.writer = some w) (long : Bool) (batch : List Pay) :
+    let r := batchWrite c n a w long batch
+    TInv c r.1 r.2.1 k ∧ n ≤ r.1 ∧ r.2.1.count = a.count ∧
+      (r.2.2 = none → log r.2.1 = log a ++ batch) ∧ (r.2.2 ≠ none → log r.2.1 = log a) := by
+  unfold batchWrite
+  split
+  · exact ⟨h, Nat.le_refl _, rfl, (fun hx => nomatch hx), fun _ => rfl⟩
+  · rename_i hbig
+    by_cases hall : ∀ p ∈ batch, raw c p ≤ c.maxAlloc
+    · exact batchWriteCore_spec c hbs hb0 n a k h w hw long batch hall
+    · -- some entry is too big, so one of the two earlier checks must have failed: the core rejects as well
+      have hany : batch.any (fun x => decide (raw c x > c.maxAlloc)) = true := by
+        rw [List.any_eq_true]
+        have hall' := Classical.not_forall.mp hall
+        obtain ⟨p, hp⟩ := hall'
+        have hp' := Classical.not_imp.mp hp
+        exact ⟨p, hp'.1, by simpa using Nat.lt_of_not_le hp'.2⟩
+      simp only [hany, Bool.and_true, Bool.and_eq_true, decide_eq_true_eq, not_and, Nat.not_le] at hbig
+      unfold batchWriteCore
+      by_cases h1 : batch.length > c.cap
+      · simp only [h1, if_true]; exact ⟨h, Nat.le_refl _, trivial, (fun hx => nomatch hx), fun _ => trivial⟩
+      · have h2 := hbig (Nat.le_of_not_gt h1)
+        simp only [h1, if_false, h2, if_true]
+        exact ⟨h, Nat.le_refl _, trivial, (fun hx => nomatch hx), fun _ => trivial⟩
+
+theorem batchWrite_spec (c : Cfg) (hbs : c.blockSize ≤ c.maxAlloc) (hb0 : 0 < c.blockSize) (n : Nat) (a : ATopic)
+    (k : Nat) (h : TInv c n a k) (w : ABlk) (hw : a.writer = some w) (long : Bool) (batch : List Pay)
+    (_hl : ∀ p ∈ batch, raw c p ≤ c.maxAlloc) :
+    let r := batchWrite c n a w long batch
+    TInv c r.1 r.2.1 k ∧ n ≤ r.1 ∧ r.2.1.count = a.count ∧
+      (r.2.2 = none → log r.2.1 = log a ++ batch) ∧ (r.2.2 ≠ none → log r.2.1 = log a) :=
+  batchWrite_spec' c hbs hb0 n a k h w hw long batch
 
 end WalrusVerif.AEng
